@@ -14,7 +14,8 @@ AUDIT_FILES = ["PyroModel/Bytes.lean", "PyroModel/Values.lean", "PyroModel/Gen/C
                "PyroProofs/WireStages.lean", "PyroProps/C01.lean", "PyroProps/C06.lean"]
 THEOREMS = ["Pyro.C01.C01_lossless", "Pyro.C01.C01_symmetric", "Pyro.C01.C01_delivers_normal_form", "Pyro.C01.C01_idempotent",
             "Pyro.C01.C01_fixed_point", "Pyro.C01.C01_batch_kwargs_none", "Pyro.C01.C01_compression_transparent",
-            "Pyro.C01.C01_gen_facts", "Pyro.C01.C01_symmetric_needs_ext_hook", "Pyro.C01.C01_batch_needs_kwargs_guard"]
+            "Pyro.C01.C01_gen_facts", "Pyro.C01.C01_symmetric_needs_ext_hook", "Pyro.C01.C01_batch_needs_kwargs_guard",
+            "Pyro.C01.C01_symmetric_needs_list_items_on_both_paths"]
 SUITES = ["res", "call", "lib", "spec", "e2e"]
 RULE = ("values generated recursively (depth <= 6) from the property's domain: None/bool, ints at every 32/53/63/64-bit boundary and up "
         "to 2^2000, all float classes (signed zero, subnormal, max, inf, nan), text incl. NUL / astral / reserved-key near misses, "
